@@ -284,6 +284,22 @@ class Ctx:
         return rc
 
 
+def srun(cmd, **kw):
+    """subprocess.run for the model driver / harness children; a child killed by a signal (the OOM
+    killer when the machine is loaded) is run once more — a second kill is reported as it is"""
+    p = subprocess.run(cmd, **kw)
+    if p.returncode < 0 or p.returncode in (137, 139):
+        f = kw.get("stdin")
+        if hasattr(f, "seek"):
+            try:
+                f.seek(0)
+            except Exception:
+                return p
+        sys.stderr.write(f"[vlib] child {cmd[:3]} died with {p.returncode}; running it once more\n")
+        p = subprocess.run(cmd, **kw)
+    return p
+
+
 def read_tsv(path):
     rows = []
     for l in open(path, encoding="utf-8", errors="replace").read().split("\n"):
